@@ -8,6 +8,7 @@ CONSTANTS
   Record = TRUE
   MaxSteps = 6
   WpMulti = 0
+  RunSet = 1
   DoEmit = FALSE
   DoWp = FALSE
   DoRun = TRUE
